@@ -98,8 +98,42 @@ def classify_ns(e_text, x, y):
         return False
     sx, sy = _strip_ns(x), _strip_ns(y)
     if sx is not None and sy is not None:
-        return sx == sy
+        # a predicate applied to a parenthesised node-set that holds namespace nodes - `( ... namespace::node() ...)[position()<=2]` -
+        # counts positions in a set where the key-0 namespace nodes have collapsed into one: WHICH other members it keeps
+        # shifts with them (thorough seed 1: `(/descendant-or-self::p:*|/node()/namespace::node())[position()<=2]` keeps one
+        # namespace node and the first p:* element instead of the two namespace nodes of the root element)
+        return sx == sy or _filters_ns_group(e_text)
     return True
+
+
+def _filters_ns_group(e):
+    """does the expression apply a predicate to a parenthesised group whose text uses the namespace axis?"""
+    for i, ch in enumerate(e):
+        if ch != "(":
+            continue
+        depth, j, q = 0, i, None
+        while j < len(e):
+            c = e[j]
+            if q:
+                if c == q:
+                    q = None
+            elif c in "'\"":
+                q = c
+            elif c == "(":
+                depth += 1
+            elif c == ")":
+                depth -= 1
+                if depth == 0:
+                    break
+            j += 1
+        if j >= len(e):
+            continue
+        k = j + 1
+        while k < len(e) and e[k] in " \t\r\n":
+            k += 1
+        if k < len(e) and e[k] == "[" and "namespace::" in e[i:j]:
+            return True
+    return False
 
 
 # ---------------------------------------------------------------------------------------------------------
@@ -845,6 +879,18 @@ def run_c08(chk):
                 mfail.append((t, e, "the parser reads this expression differently from the reviewed grammar (tools/ref/xpath.json); "
                               "productions that differ now: %s" % [d[0] for d in lib.GRAMMAR_DIFFS["xpath"]], x + " expected " + y))
     chk.cov["reviewed_grammar_stream"] = "%d expressions, %d readable by the reviewed grammar" % (len(rtexts), ref_ok)
+    # reach of the completeness THEOREM (Thm/C08 `spelling_parses`): how many of the expression texts of this run the parser
+    # accepts are `e.str` of a concrete expression `e` that meets the theorem's hypotheses?  (model only: the parse tree is read
+    # back into `e`, `e.str = text` is checked, then `e.ok` and the depth bound are evaluated.)  A text outside is a gap of the
+    # theorem, not of the code: reported in the evidence, never as a violation.
+    alltexts = sorted({e for _, _, es in qs for e in es} | set(rtexts))
+    th = lib.run_lines(lib.model_driver(), [lib.req("thm08", e) for e in alltexts], timeout=900, per_line_resume=True)
+    acc = [(e, r) for e, r in zip(alltexts, th) if not r.startswith("err")]
+    inprof = [(e, r) for e, r in acc if r.startswith("profile=1 ok=")]
+    good = "profile=1 ok=1 depth=1 accepted=1 concl=1"
+    chk.cov["theorem_reach"] = {"expression_texts": len(alltexts), "accepted": len(acc), "in_profile": len(inprof),
+                                "hypotheses_hold": sum(1 for _, r in inprof if r == good),
+                                "gaps": [lib.enc(e)[:160] + " -> " + r for e, r in acc if r != good][:5]}
     chk.cov["asts_with_distinct_spellings"] = differing
     chk.cov["spellings_per_ast"] = len(SP)
     chk.cov["disagreements_checked"] = len(tdis)
